@@ -11,6 +11,7 @@ run was given (incl. the order-book lists) before vs after, and a second run on 
 reproducing history and actions exactly."""
 from __future__ import annotations
 
+import itertools
 import json
 from decimal import Decimal
 
@@ -338,12 +339,93 @@ def judge_inputs(part, wname, interval, sname, tz=False):
                        {"first_bar": first, "errors": [a["error"], b["error"]]})
 
 
+_LOADER_SEQ = itertools.count(1)
+
+
+def judge_loader(part, holes, cut, vkind):
+    """The history as the downloader writes it: minute FILES without a row for minutes in which nothing happened (possibly a blank first minute). Two file sets that agree
+    up to the cut and differ afterwards are read by the repository's loader (re-index to the minute grid, fill holes, statistic columns): the prepared rows up to
+    the cut are identical, the files are not touched, and reading the same files again gives the same frame."""
+    import datetime
+    import hashlib
+    import os
+    import shutil
+    import tempfile
+
+    import demeter.data.data_cache as dc
+    from demeter import MarketInfo
+    from demeter.uniswap import UniLpMarket
+    from mc.worlds import uni
+
+    case = {"check": "loader", "holes": list(holes), "cut_minute": cut, "variant": vkind}
+    n = 16
+    pool = uni.pool_q0()
+    closes = [200000 + 13 * ((7 * i) % 11) - 40 for i in range(n)]
+    in0 = [10**9 * (i + 1) for i in range(n)]
+    in1 = [10**17 * (n - i) for i in range(n)]
+    base = uni.raw_frame(closes, in0, in1, [4 * 10**16 + i for i in range(n)], open_tick=closes[0])
+    var = base.copy()
+    fut = var.index > var.index[cut]
+    if vkind == "shock":
+        var.loc[fut, "closeTick"] = var.loc[fut, "closeTick"] + 700
+        var.loc[fut, "inAmount0"] = [v * 3 for v in var.loc[fut, "inAmount0"]]
+        var.loc[fut, "inAmount1"] = [v * 5 for v in var.loc[fut, "inAmount1"]]
+        var.loc[fut, "currentLiquidity"] = [v * 2 for v in var.loc[fut, "currentLiquidity"]]
+    elif vkind == "truncate":
+        var = var.loc[~fut]
+    d = tempfile.mkdtemp(prefix="c02-loader-")
+    try:
+        dc.CACHE_PATH = os.path.join(d, "cache")  # harness process only (the loader's feather cache is ~/.demeter otherwise)
+        dc.CACHE_CONFIG_PATH = os.path.join(dc.CACHE_PATH, "config.pkl")
+        day = base.index[0].date()
+        loaded, digests = [], []
+        for frame in (base, var, base):
+            addr = "0x" + format(next(_LOADER_SEQ), "x")
+            rows = frame.drop(index=[base.index[h] for h in holes if base.index[h] in frame.index]).copy()
+            for col in rows.columns:
+                rows[col] = [int(v) for v in rows[col]]
+            rows.insert(0, "timestamp", rows.index)
+            path = os.path.join(d, f"ethereum-{addr}-{day.strftime('%Y-%m-%d')}.minute.csv")
+            rows.to_csv(path, index=False)
+            h0 = hashlib.sha1(open(path, "rb").read()).hexdigest()
+            m = UniLpMarket(MarketInfo("uni"), pool, data_path=d)
+            m.load_data("ethereum", addr, day, day)
+            digests.append(h0 == hashlib.sha1(open(path, "rb").read()).hexdigest())
+            loaded.append(m.data)
+    except Exception as e:  # noqa: BLE001
+        part.violation(f"C02|loader|exception|{type(e).__name__}", "the repository's loader raised on minute files with holes", case, {"error": repr(e)[:200]})
+        return
+    finally:
+        shutil.rmtree(d, ignore_errors=True)
+    part.count("loader_pairs")
+    if not all(digests):
+        part.violation("C02|loader|files-modified", "loading modified the minute files", case)
+    from mc.worlds.base import cell_repr
+
+    def rows_upto(df, k):
+        return [(str(ts),) + tuple(cell_repr(v) for v in row) for ts, row in zip(df.index[:k + 1], df.iloc[:k + 1].itertuples(index=False, name=None))]
+    a, b, a2 = (rows_upto(x, cut) for x in loaded)
+    if a != a2:
+        part.violation("C02|loader|reload-differs", "loading the same files twice gives different frames", case)
+    first_real = min(i for i in range(n) if i not in holes)
+    if cut < first_real:
+        return  # a blank head is filled from the first row there is: with the cut inside the blank head the two histories do not agree on any bar
+    part.count("prefix_bars_compared", cut + 1)
+    if a != b:
+        i = next(i for i, (x, y) in enumerate(zip(a, b)) if x != y)
+        cols = [str(c) for c, x, y in zip(["timestamp"] + list(loaded[0].columns), a[i], b[i]) if x != y]
+        part.violation(f"C02|loader|prefix|{vkind}", "the prepared history of the minutes up to the cut differs between two file sets that agree up to the cut (a hole was filled "
+                       "from LATER rows)", case, {"minute": i, "columns": cols[:6]})
+
+
 def work(args):
     seed, items = args
     part = Part(seed)
     for it in items:
         if it[0] == "pair":
             judge_pair(part, *it[1:])
+        elif it[0] == "loader":
+            judge_loader(part, *it[1:])
         else:
             judge_inputs(part, *it[1:])
     return part.result()
@@ -373,13 +455,17 @@ def all_items(run):
                 for k in cuts:
                     for v in variants:
                         items.append(("pair", wname, interval, sname, k, v))
+    for holes in ((), (0,), (0, 1, 5, 6, 11), (3, 4, 9), (0, 2, 4, 6, 8, 10, 12, 14)):
+        for cut in (2, 4, 7, 10, 13):
+            for v in ("shock", "truncate"):
+                items.append(("loader", holes, cut, v))
     return items
 
 
 def main(run: Run):
     items = run.rotate(all_items(run))
-    heavy = [i for i in items if i[1] in ("deribit+uni", "deribit(gap)+uni")]
-    light = [i for i in items if i[1] not in ("deribit+uni", "deribit(gap)+uni")]
+    heavy = [i for i in items if i[0] != "loader" and i[1] in ("deribit+uni", "deribit(gap)+uni")]
+    light = [i for i in items if i[0] == "loader" or i[1] not in ("deribit+uni", "deribit(gap)+uni")]
     jobs = [(run.seed, ch) for ch in chunks(light, 64)] + [(run.seed, ch) for ch in chunks(heavy, 16)]
     for r in pmap(work, jobs):
         run.merge(r)
@@ -402,7 +488,9 @@ def replay(run: Run, path):
     data = json.load(open(path))
     case = data["case"]
     part = Part()
-    if case.get("check") == "inputs-intact":
+    if case.get("check") == "loader":
+        judge_loader(part, tuple(case["holes"]), case["cut_minute"], case["variant"])
+    elif case.get("check") == "inputs-intact":
         judge_inputs(part, case["world"], case["interval"], case["strategy"])
     else:
         judge_pair(part, case["world"], case["interval"], case["strategy"], case["cut_raw_bar"], case["variant"])
